@@ -67,8 +67,12 @@ def make_world(case, refuse):
                 kw["reply"] = 5
             return SocksPeer(inner_factory=inner, **kw)
         cp = None
-        if refuse == "connect":
-            cp = lambda req: {"status": 403, "reason": b"Forbidden", "framing": "cl", "body": b""}
+        if refuse and refuse.startswith("connect"):
+            # "connect" = 403; "connect:<status>" = any other non-2xx reply (3xx redirects of captive
+            # portals, 407, 5xx ...): every one of them is a refusal
+            status = int(refuse.split(":")[1]) if ":" in refuse else 403
+            hdrs = [(b"Location", b"http://portal.test/login")] if 300 <= status < 400 else []
+            cp = lambda req: {"status": status, "reason": b"Refused", "headers": hdrs, "framing": "cl", "body": b""}
         return TunnelPeer(inner_factory=inner, connect_plan=cp, alpn="http/1.1")
 
     return World(default=peer_for)
@@ -110,7 +114,7 @@ def request_args(case):
     return url, ext
 
 
-MARKERS = {"callerBody": b"bodymark", "callerHeader": b"callermark", "proxyAuth": b"dXNlcjpzZWNyZXQ=", "proxyHeader": b"pxmark"}
+MARKERS = {"callerBody": b"bodymark", "callerHeader": b"callermark", "proxyAuth": b"dXNlcjpzZWNyZXQ=", "proxyHeader": b"pxmark", "caller2Header": b"second2mark"}
 
 
 def caller_headers(case):
@@ -133,7 +137,7 @@ def carries(data):
         d = H2Decoder()
         d.feed(data)
         data = d.flat()
-    return [m for m in ("callerBody", "callerHeader", "proxyAuth", "proxyHeader") if MARKERS[m] in data]
+    return [m for m in ("callerBody", "callerHeader", "proxyAuth", "proxyHeader", "caller2Header") if MARKERS[m] in data]
 
 
 FALLIBLE = ("connect_tcp", "connect_unix", "start_tls", "read", "write")
@@ -170,7 +174,24 @@ class Script:
         return None
 
 
-EXC = {"ReadError": "ReadError", "ConnectError": "ConnectError", "ConnectTimeout": "ConnectTimeout", "OtherError": "ReadTimeout", "WriteError": "WriteError", "ReadError": "ReadError"}
+# "OtherError" of the specification = any exception that is NOT a connect error / connect timeout.  The
+# concrete class is chosen by the script ("OtherError:<class>"): an httpcore class of another family, and
+# OSError subclasses / other builtins as a third-party backend may let through (never retriable either).
+OTHER_CLASSES = ["ReadTimeout", "PermissionError", "ConnectionResetError", "TimeoutError", "RuntimeError"]
+
+
+class _Exc(dict):
+    def __missing__(self, k):
+        if k.startswith("OtherError:"):
+            return k.split(":", 1)[1]
+        raise KeyError(k)
+
+
+EXC = _Exc({"ReadError": "ReadError", "ConnectError": "ConnectError", "ConnectTimeout": "ConnectTimeout", "OtherError": "ReadTimeout", "WriteError": "WriteError"})
+
+
+def norm_other(name):
+    return "OtherError" if name in OTHER_CLASSES else name
 
 
 def run_sync(case, outcomes, refuse):
@@ -201,6 +222,28 @@ def run_sync(case, outcomes, refuse):
             resp.close()
         result["result"] = "ok"
         result["status"] = resp.status
+        if case.get("second"):
+            # a SECOND request by another caller on the same pool (the connection is kept alive): other
+            # headers, no body - what it carries is judged by Establish.SecondOK
+            mark = len(net.ops)
+            result["ops_mark"] = mark
+            try:
+                r2 = pool.handle_request(httpcore.Request("GET", url.replace("/x", "/y"), headers=[(b"Host", ORIGIN_HOST.encode()), (b"X-Caller2", b"second2mark")], extensions=ext))
+                try:
+                    r2.read()
+                finally:
+                    r2.close()
+                data2 = b"".join(op.args.get("data", b"") for op in net.ops[mark:] if op.kind == "write")
+                line = data2.split(b"\r\n")[0]
+                result["second"] = {
+                    "carries": carries(data2),
+                    "form": "absolute" if (b" http://" in line or b" https://" in line or b" ws://" in line) else "origin",
+                    "dup": has_dup(data2),
+                    "connects": sum(1 for op in net.ops[mark:] if op.kind in ("connect_tcp", "connect_unix")),
+                    "res": "ok",
+                }
+            except BaseException as e2:  # noqa
+                result["second"] = {"carries": [], "form": "", "dup": False, "connects": 0, "res": type(e2).__name__}
     except WouldHang:
         result["result"] = "ok"  # the request was written; a stub peer does not answer
         result["hang"] = True
@@ -260,7 +303,7 @@ def abstract(case, net, result):
     req_sid = None
     req_bytes = b""
     stage = {}  # sid -> stage of the proxy negotiation
-    for op in net.ops:
+    for op in net.ops[: result.get("ops_mark")]:
         if requested and op.state == "done" and op.outcome and op.outcome[0] == "exc" and op.kind in ("read", "write"):
             ops.append({"op": "post", "res": type(op.outcome[1]).__name__})
             break
@@ -272,9 +315,7 @@ def abstract(case, net, result):
             continue
         if op.state not in ("done",):
             continue
-        res = "ok" if op.outcome and op.outcome[0] == "ok" else type(op.outcome[1]).__name__
-        if res == "ReadTimeout":
-            res = "OtherError"
+        res = "ok" if op.outcome and op.outcome[0] == "ok" else norm_other(type(op.outcome[1]).__name__)
         a = op.args
         tmo = TMO_NAME.get(a.get("timeout"), "weird:%r" % (a.get("timeout"),))
         if op.kind == "connect_tcp":
@@ -415,16 +456,19 @@ def record(case, outcomes, refuse, mode):
     net, result, _ = (run_sync if mode == "sync" else run_async)(case, outcomes, refuse)
     ops = abstract(case, net, result)
     res = result["result"]
-    if refuse and res == "ProxyError":
-        # the refusing reply is the last read
-        for o in reversed(ops):
-            if o["op"] == "read":
+    if refuse:
+        # the read that DELIVERED the refusing reply is marked by what the peer did, never by how the
+        # client reacted: a client that carries on after a refusal must not look like a success
+        want = "connect-resp" if refuse.startswith("connect") else refuse
+        for o in ops:
+            if o["op"] == "read" and o.get("what") == want and o["res"] == "ok":
                 o["res"] = "refused"
                 break
-    if res == "ReadTimeout":
-        res = "OtherError"
+    res = norm_other(res)
     open_after = any(r.open for r in net.streams) if res != "ok" else False
+    extra = {"second": result["second"]} if "second" in result else {}
     return {
+        **extra,
         "case": case,
         "ops": ops,
         "result": res,
@@ -446,7 +490,7 @@ CHECK_DEADLOCK FALSE
 
 
 def validate(traces, dev="NoDev", groups="GAll"):
-    body = [{"case": t["case"], "ops": t["ops"], "result": t["result"], "open_after": t["open_after"]} for t in traces]
+    body = [dict({"case": t["case"], "ops": t["ops"], "result": t["result"], "open_after": t["open_after"]}, **({"second": t["second"]} if "second" in t else {})) for t in traces]
     res, stats = tlc.validate_traces("MCEstablishTrace", trace_cfg(dev, groups), body, nd=1)
     return [r[0] for r in res], stats
 
